@@ -2,7 +2,7 @@
 import shutil, sys, json, os, random, signal, subprocess, time
 import vlib, runscen
 
-THEOREMS = [("Properties.C14", "C14_holds"), ("Properties.C14", "C14_multi_address_holds"), ("AsFound.C14", "C14_as_found_refuted")]
+THEOREMS = [("Properties.C14", "C14_holds"), ("Properties.C14", "C14_multi_address_holds"), ("Properties.C14", "C14_lone_acquires_holds"), ("AsFound.C14", "C14_as_found_refuted"), ("AsFound.C14", "C14_lone_acquires_refuted_without_dedup")]
 CORRESPONDENCE = "concurrent run / checkpoint update / checkpoint delete / out delete processes == Model.Lock step function on the observed start/exit order"
 LEVEL_NOTE = ("Coq theorem C14_holds, for every number of processes and every interleaving of starts, effect steps and kills: at most one process is past lock acquisition; effects are "
               "produced only by the holder; a process whose bind is refused does nothing but end; after the holder's exit or kill the next process acquires at once. Partial: the OS provides "
